@@ -30,7 +30,7 @@ EXHAUSTIVE_PARTS = {
 }
 RULE = ("Cases: 2..40 points (thorough 120) in 1..4 dimensions, kinds generic / lattice (ties) / collinear / duplicated points, distinct "
         "weights (a drawn permutation plus offset), per-point squared cut-offs e^{N(0,1.5)} x median d^2 (tiny .. larger than the "
-        "diameter), gabriel_shell 1..3, scale in {1, .5, 2}, optional periodic cell (e^{N(0,1)} x 2 per side).  Non-trivial: >= 2 clusters "
+        "diameter; in a fifth of the cut-off cases some are infinite, always the one of the heaviest point), gabriel_shell 1..3, scale in {1, .5, 2}, optional periodic cell (e^{N(0,1)} x 2 per side).  Non-trivial: >= 2 clusters "
         "and, walking the oracle forest in input order, a path of >= 2 steps that runs into an already rooted chain; distinct = SHA-1 of "
         "the canonical case.")
 ASSUMPTIONS = [
@@ -73,6 +73,8 @@ def strategy_(draw, tier):
             "perm": gen.permutation(draw, n), "shift": draw(hnp.arrays(np.int64, (n, d), elements=st.integers(-3, 3)))}
     if mode == "cut":
         case["cut_log"] = gen.normal(draw, (n,)) * 1.5
+        if draw(st.integers(0, 4)) == 0:
+            case["cut_inf"] = draw(hnp.arrays(np.bool_, (n,)))
     else:
         case["shell"] = draw(st.integers(1, 3))
     return case
@@ -105,7 +107,14 @@ def exhaustive(tier):
 def cutoffs(case, D):
     pos = D[D > 0]
     med = float(np.median(pos)) if pos.size else 1.0
-    return np.exp(case["cut_log"]) * med
+    c = np.exp(case["cut_log"]) * med
+    if case.get("cut_inf") is not None:
+        # "no cut-off" for some points (always including the heaviest one, which then has nowhere to go)
+        c = np.array(c, dtype=float, copy=True)
+        mask = np.asarray(case["cut_inf"], bool)
+        c[mask[: len(c)]] = np.inf
+        c[int(np.argmax(case["w"]))] = np.inf
+    return c
 
 
 def gabriel3(D, tol):
